@@ -474,18 +474,31 @@ Qed.
 
 (* the text coap_print_wellknown_lkd hands to match() for an attribute value *)
 Lemma lf_unquote_view v :
-  lf_val_ok v = true ->
-  exists c, lf_rd (v ++ [0]) 0 = Some c /\
-    let text := if c =? 34 then {| lf_obj := v ++ [0]; lf_at := 1; lf_len := len v - 2 |}
+  exists quoted,
+    (if len v <? 2 then Some false
+     else match lf_rd (v ++ [0]) 0 with None => None | Some c => Some (c =? 34) end) = Some quoted /\
+    let text := if quoted then {| lf_obj := v ++ [0]; lf_at := 1; lf_len := len v - 2 |}
                 else {| lf_obj := v ++ [0]; lf_at := 0; lf_len := len v |} in
     lf_inb text /\ lf_view text = lf_unquote v.
 Proof.
-  intros Hok. assert (Hv := len_nonneg v).
-  destruct v as [|x tl].
-  - exists 0. split; [reflexivity|]. cbn. split; [unfold lf_inb; cbn; lia|reflexivity].
-  - exists x. split; [reflexivity|]. cbn [lf_val_ok lf_unquote] in *.
+  assert (Hv := len_nonneg v).
+  assert (Hplain : lf_inb {| lf_obj := v ++ [0]; lf_at := 0; lf_len := len v |} /\
+                   lf_view {| lf_obj := v ++ [0]; lf_at := 0; lf_len := len v |} = v).
+  { split.
+    - unfold lf_inb. cbn [lf_at lf_len lf_obj]. rewrite len_app, lf_len1. lia.
+    - unfold lf_view. cbn [lf_at lf_len lf_obj]. rewrite lf_drop_0. apply take_app_exact. }
+  destruct (len v <? 2) eqn:E2.
+  - exists false. split; [reflexivity|]. cbv zeta.
+    destruct Hplain as [Hi Hw]. split; [exact Hi|]. rewrite Hw.
+    destruct v as [|x tl]; [reflexivity|]. cbn [lf_unquote].
+    rewrite len_cons in E2. assert (X := len_nonneg tl).
+    replace (len tl =? 0) with true by lia. rewrite andb_false_r. reflexivity.
+  - destruct v as [|x tl]; [change (len (@nil Z)) with 0 in E2; lia|].
+    exists (x =? 34). split; [reflexivity|]. cbv zeta. cbn [lf_unquote].
+    rewrite len_cons in E2. assert (X := len_nonneg tl).
+    replace (len tl =? 0) with false by lia. rewrite andb_true_r.
     destruct (x =? 34) eqn:E.
-    + destruct tl as [|y tl']; [discriminate|]. cbv zeta.
+    + destruct tl as [|y tl']; [change (len (@nil Z)) with 0 in E2; lia|].
       assert (Hl := len_nonneg tl'). rewrite !len_cons.
       split.
       * unfold lf_inb. cbn [lf_at lf_len lf_obj]. rewrite len_app, lf_len1, !len_cons. lia.
@@ -495,17 +508,15 @@ Proof.
         replace (Z.max 0 (1 + (1 + len tl') - 2 - (1 + len tl'))) with 0 by lia.
         rewrite lf_take_0, app_nil_r. rewrite removelast_firstn_len.
         unfold take. f_equal. cbn [length]. unfold len. lia.
-    + cbv zeta. split.
-      * unfold lf_inb. cbn [lf_at lf_len lf_obj]. rewrite len_app, lf_len1. lia.
-      * unfold lf_view. cbn [lf_at lf_len lf_obj]. rewrite lf_drop_0. apply take_app_exact.
+    + exact Hplain.
 Qed.
 
 (* C20_filter_spec: the code's per-resource decision is the RFC relation *)
 Theorem lf_select_ok q f r :
-  lf_filter_ok q f -> lf_res_ok r = true ->
+  lf_filter_ok q f ->
   lf_select true f r = LfVal (lf_filter_spec q r).
 Proof.
-  intros (Hname & Hrest) Hrok. unfold lf_select, lf_filter_spec. rewrite Hname.
+  intros (Hname & Hrest). unfold lf_select, lf_filter_spec. rewrite Hname.
   destruct (lf_before_eq q) as [|n0 ntl] eqn:En.
   { reflexivity. }
   rewrite len_cons. assert (Hl := len_nonneg ntl). replace (1 + len ntl =? 0) with false by lia.
@@ -525,12 +536,9 @@ Proof.
       unfold lf_c_find_attr.
       destruct (lf_find_attr (lf_attrs r) (n0 :: ntl)) as [a|] eqn:Ef; [|reflexivity].
       destruct (lf_avalue a) as [v|] eqn:Ev; [|reflexivity].
-      assert (lf_val_ok v = true) as Hvok.
-      { unfold lf_res_ok in Hrok. rewrite forallb_forall in Hrok.
-        specialize (Hrok a (lf_find_attr_ok _ _ _ Ef)). rewrite Ev in Hrok. exact Hrok. }
-      destruct (lf_unquote_view v Hvok) as (c & Hc & Htext). rewrite Hc. cbv zeta in Htext.
-      destruct Htext as (Htin & Htv).
-      set (text := if c =? 34 then _ else _) in *.
+      destruct (lf_unquote_view v) as (quoted & Hq & Htext). cbn [andb]. rewrite Hq.
+      cbv zeta in Htext. destruct Htext as (Htin & Htv).
+      set (text := if quoted then _ else _) in *.
       assert (lf_len text <? 0 = false) as Hneg by (destruct Htin as (_ & ? & _); lia).
       rewrite Hneg. rewrite lf_match_ok by assumption.
       rewrite Htv, Hsub. reflexivity.
@@ -538,12 +546,9 @@ Proof.
     unfold lf_c_find_attr.
     destruct (lf_find_attr (lf_attrs r) (n0 :: ntl)) as [a|] eqn:Ef; [|reflexivity].
     destruct (lf_avalue a) as [v|] eqn:Ev; [|reflexivity].
-    assert (lf_val_ok v = true) as Hvok.
-    { unfold lf_res_ok in Hrok. rewrite forallb_forall in Hrok.
-      specialize (Hrok a (lf_find_attr_ok _ _ _ Ef)). rewrite Ev in Hrok. exact Hrok. }
-    destruct (lf_unquote_view v Hvok) as (c & Hc & Htext). rewrite Hc. cbv zeta in Htext.
-    destruct Htext as (Htin & Htv).
-    set (text := if c =? 34 then _ else _) in *.
+    destruct (lf_unquote_view v) as (quoted & Hq & Htext). cbn [andb]. rewrite Hq.
+    cbv zeta in Htext. destruct Htext as (Htin & Htv).
+    set (text := if quoted then _ else _) in *.
     assert (lf_len text <? 0 = false) as Hneg by (destruct Htin as (_ & ? & _); lia).
     rewrite Hneg. reflexivity.
 Qed.
